@@ -59,6 +59,11 @@ impl CQueueLLAllocatorInner {
             Layout::from_size_align(self.page_size, self.page_size).expect("page layout invalid"),
         );
         self.pages.push(block);
+        #[cfg(petrichorit_des_verif)]
+        verif::emit(verif::AllocEvent::Page {
+            addr: block as usize,
+            len: self.page_size,
+        });
         self.add_free_region(block as usize, self.page_size);
     }
 
@@ -201,6 +206,14 @@ impl CQueueLLAllocator {
                     }
                 }
                 allocator.allocated_mem += size;
+                #[cfg(petrichorit_des_verif)]
+                verif::emit(verif::AllocEvent::Alloc {
+                    addr: alloc_start,
+                    size,
+                    align,
+                    requested_size: layout.size(),
+                    requested_align: layout.align(),
+                });
                 Ok(alloc_start as *mut u8)
             }
         } else {
@@ -212,6 +225,82 @@ impl CQueueLLAllocator {
         let (size, _) = CQueueLLAllocatorInner::size_align(layout);
         let allocator = unsafe { &mut *self.inner };
         allocator.allocated_mem -= size;
+        #[cfg(petrichorit_des_verif)]
+        verif::emit(verif::AllocEvent::Free {
+            addr: ptr.as_ptr() as usize,
+            size,
+        });
         allocator.add_free_region(ptr.as_ptr() as usize, size);
+    }
+}
+
+/// Verification hooks (only with `--cfg petrichorit_des_verif`): an observer for
+/// every page acquisition, allocation and deallocation of the allocator.
+#[cfg(petrichorit_des_verif)]
+pub mod verif {
+    use std::cell::RefCell;
+
+    #[derive(Debug, Clone, Copy, PartialEq, Eq)]
+    pub enum AllocEvent {
+        Page {
+            addr: usize,
+            len: usize,
+        },
+        Alloc {
+            addr: usize,
+            size: usize,
+            align: usize,
+            requested_size: usize,
+            requested_align: usize,
+        },
+        Free {
+            addr: usize,
+            size: usize,
+        },
+    }
+
+    thread_local! {
+        static OBSERVER: RefCell<Option<Box<dyn FnMut(AllocEvent)>>> = const { RefCell::new(None) };
+    }
+
+    /// Installs (or removes) the observer of the current thread.
+    pub fn set_alloc_observer(f: Option<Box<dyn FnMut(AllocEvent)>>) {
+        OBSERVER.with(|o| *o.borrow_mut() = f);
+    }
+
+    pub(super) fn emit(event: AllocEvent) {
+        OBSERVER.with(|o| {
+            if let Ok(mut o) = o.try_borrow_mut() {
+                if let Some(f) = o.as_mut() {
+                    f(event);
+                }
+            }
+        });
+    }
+
+    impl super::CQueueLLAllocatorInner {
+        /// The amount of memory currently handed out.
+        #[must_use]
+        pub fn verif_allocated_mem(&self) -> usize {
+            self.allocated_mem
+        }
+
+        /// The free list as `(addr, size)` pairs, front first.
+        #[must_use]
+        pub fn verif_free_list(&self) -> Vec<(usize, usize)> {
+            let mut out = Vec::new();
+            let mut cur = &self.head;
+            while let Some(region) = cur.next.as_ref() {
+                out.push((region.start_addr(), region.size));
+                cur = region;
+            }
+            out
+        }
+
+        /// `size_of::<ListNode>()`, the minimal size of a region.
+        #[must_use]
+        pub fn verif_node_size() -> usize {
+            std::mem::size_of::<super::ListNode>()
+        }
     }
 }
